@@ -75,6 +75,14 @@ def check_tree(inp):
         if not (np.allclose(np.asarray(g1).reshape(w_.shape), w_, rtol=1e-4, atol=1e-5) and
                 np.allclose(np.asarray(g2).reshape(w_.shape), w_, rtol=1e-4, atol=1e-5)):
           return f'aggregating the same (trees, numpy weights) twice gives {np.asarray(g1)} then {np.asarray(g2)}, the mean is {w_}'
+  # the aggregator averages ENTRIES: equal client ids (a client sampled twice, dummy ids) do not merge entries
+  if n >= 2 and W > 0:
+    for ids in ([b'same'] * n, [None] * n, [0] * n):
+      got = aggregator.mean_aggregator().apply(((i_, t, w) for i_, t, w in zip(ids, trees, weights)), None)[0]
+      for g, w_ in zip(leaves(got), want):
+        if not np.allclose(np.asarray(g), w_, rtol=1e-4, atol=1e-5):
+          return (f'mean_aggregator with {n} entries that all carry the client id {ids[0]!r}: {np.asarray(g)} is not the weighted '
+                  f'mean {w_} of the entries (weights {weights})')
   s = tree_util.tree_sum(t for t in trees)
   for g, ks in zip(leaves(s), zip(*map(leaves, keep))):
     if not np.allclose(np.asarray(g), np.sum(np.stack(ks), 0), rtol=1e-4, atol=1e-5):
